@@ -820,6 +820,13 @@ func (cfg *Config) wordFields(wps []syntax.WordPart) ([][]fieldPart, error) {
 				// Unquoted "*" or "@" expansions produce one field per
 				// element; joining and re-splitting them would lose
 				// fields when IFS is empty.
+				if cfg.ifs != "" {
+					// Like bash, the elements are separated by the first
+					// IFS character and split again, so that empty
+					// elements give empty fields when it isn't whitespace.
+					splitAdd(cfg.ifsJoin(elems))
+					continue
+				}
 				for j, elem := range elems {
 					if j > 0 {
 						flush()
